@@ -160,7 +160,7 @@ def split_batch(diags, index):
     return out
 
 
-def real_drivers(ctx, items, cats, rep, cfg=None, drivers=("binary", "vet"), chunk=150, project=None):
+def real_drivers(ctx, items, cats, rep, cfg=None, drivers=("binary", "vet"), chunk=150, project=None, env_cfg=None):
     """Replay items through the unmodified binary (standalone) and go vet -vettool, batched."""
     n = 0
     for lo in range(0, len(items), chunk):
@@ -168,13 +168,13 @@ def real_drivers(ctx, items, cats, rep, cfg=None, drivers=("binary", "vet"), chu
         bp, index = batch([it[0] for it in part], tag="s")
         for drv in drivers:
             if drv == "binary":
-                r = proglib.run_binary(ctx, bp, cfg=cfg, timeout=600)
+                r = proglib.run_binary(ctx, bp, cfg=cfg, timeout=600, env_cfg=env_cfg)
             else:
-                r = proglib.run_vet(ctx, bp, cfg=cfg, timeout=900)
+                r = proglib.run_vet(ctx, bp, cfg=cfg, timeout=900, env_cfg=env_cfg)
             if r.get("fail"):
                 # find the culprit(s) individually
                 for it in part:
-                    rr = proglib.run_binary(ctx, it[0], cfg=cfg) if drv == "binary" else proglib.run_vet(ctx, it[0], cfg=cfg)
+                    rr = proglib.run_binary(ctx, it[0], cfg=cfg, env_cfg=env_cfg) if drv == "binary" else proglib.run_vet(ctx, it[0], cfg=cfg, env_cfg=env_cfg)
                     if rr.get("fail"):
                         ctx.violation("%s driver failed: %s" % (drv, rr["fail"].split("\n")[0][:300]),
                                       {"kind": "program", "program": it[0], "expected": sorted(it[1]), "cats": sorted(cats or []),
@@ -187,7 +187,7 @@ def real_drivers(ctx, items, cats, rep, cfg=None, drivers=("binary", "vet"), chu
                 n += 1
                 if got != exp:
                     # reproduce alone with the same driver
-                    rr = proglib.run_binary(ctx, prog, cfg=cfg) if drv == "binary" else proglib.run_vet(ctx, prog, cfg=cfg)
+                    rr = proglib.run_binary(ctx, prog, cfg=cfg, env_cfg=env_cfg) if drv == "binary" else proglib.run_vet(ctx, prog, cfg=cfg, env_cfg=env_cfg)
                     got2 = project(rr["diags"]) if project else proglib.keyset(rr.get("diags") or [], cats=cats)
                     if got2 == exp and not rr.get("fail"):
                         raise vlib.ToolError("%s-driver mismatch did not reproduce alone for %s: %s vs %s"
@@ -195,5 +195,5 @@ def real_drivers(ctx, items, cats, rep, cfg=None, drivers=("binary", "vet"), chu
                     if len(ctx.violations) < 3:
                         ctx.violation("%s driver: expected %s, observed %s" % (drv, sorted(exp), sorted(got2)),
                                       {"kind": "program", "program": prog, "expected": sorted(exp), "observed": sorted(got2),
-                                       "cats": sorted(cats or []), "cfg": cfg, "driver": drv, "scenario": meta})
+                                       "cats": sorted(cats or []), "cfg": cfg, "env": env_cfg, "driver": drv, "scenario": meta})
     return n
